@@ -1,0 +1,134 @@
+//go:build verif
+
+package gkvlite
+
+// Introspection for the verification harness in /verif.  Compiled only with the
+// "verif" build tag; nothing here changes the behaviour of the package.
+
+import "unsafe"
+
+// VerifNodeInfo describes one cached node of a collection's tree.
+type VerifNodeInfo struct {
+	Addr        uintptr // address of the node
+	Mark        uintptr // node.next (reclaim mark or free-list link), 0 if nil
+	Depth       int
+	HasLoc      bool // the slot pointing at this node has a file location
+	ItemHasLoc  bool
+	Item        *Item // cached item, nil if evicted / not loaded
+	NumNodes    uint64
+	NumBytes    uint64
+	LeftEmpty   bool
+	RightEmpty  bool
+	LeftCached  bool
+	RightCached bool
+}
+
+func verifWalk(n *nodeLoc, depth int, fn func(VerifNodeInfo)) {
+	if n == nil || n.isEmpty() {
+		return
+	}
+	nd := n.Node()
+	if nd == nil {
+		return
+	}
+	verifWalk(&nd.left, depth+1, fn)
+	fn(VerifNodeInfo{
+		Addr:        uintptr(unsafe.Pointer(nd)),
+		Mark:        uintptr(unsafe.Pointer(nd.next)),
+		Depth:       depth,
+		HasLoc:      !n.Loc().isEmpty(),
+		ItemHasLoc:  !nd.item.Loc().isEmpty(),
+		Item:        nd.item.Item(),
+		NumNodes:    nd.numNodes,
+		NumBytes:    nd.numBytes,
+		LeftEmpty:   nd.left.isEmpty(),
+		RightEmpty:  nd.right.isEmpty(),
+		LeftCached:  nd.left.Node() != nil,
+		RightCached: nd.right.Node() != nil,
+	})
+	verifWalk(&nd.right, depth+1, fn)
+}
+
+// VerifWalk visits, in key order and without loading anything, every node that is
+// cached under the version the handle c currently points at.
+func VerifWalk(c *Collection, fn func(VerifNodeInfo)) {
+	c.rootLock.Lock()
+	r := c.root
+	c.rootLock.Unlock()
+	if r == nil {
+		return
+	}
+	verifWalk(r.root, 0, fn)
+}
+
+func verifLoadAll(o *Store, n *nodeLoc) error {
+	if n == nil || n.isEmpty() {
+		return nil
+	}
+	nd, err := n.read(o)
+	if err != nil || nd == nil {
+		return err
+	}
+	if err := verifLoadAll(o, &nd.left); err != nil {
+		return err
+	}
+	return verifLoadAll(o, &nd.right)
+}
+
+// VerifLoadAll loads every node (not the items) of the handle's current version.
+func VerifLoadAll(c *Collection) error {
+	c.rootLock.Lock()
+	r := c.root
+	c.rootLock.Unlock()
+	if r == nil {
+		return nil
+	}
+	return verifLoadAll(c.store, r.root)
+}
+
+// VerifFreeNodes returns the addresses of the nodes on the process-wide free list.
+func VerifFreeNodes() []uintptr {
+	freeNodeLock.Lock()
+	defer freeNodeLock.Unlock()
+	var out []uintptr
+	for n := freeNodes; n != nil; n = n.next {
+		out = append(out, uintptr(unsafe.Pointer(n)))
+	}
+	return out
+}
+
+// VerifRootInfo describes the version a handle points at.
+type VerifRootInfo struct {
+	Addr         uintptr // the rootNodeLoc
+	Refs         int64
+	Mark         uintptr // address of its reclaimMark sentinel
+	Chained      uintptr // chainedRootNodeLoc
+	ReclaimLater [3]uintptr
+	RootEmpty    bool
+	Lock         uintptr // the rootLock shared by all handles of one lineage
+}
+
+// VerifRoot returns the version information of the handle c (zero value if closed).
+func VerifRoot(c *Collection) VerifRootInfo {
+	c.rootLock.Lock()
+	defer c.rootLock.Unlock()
+	r := c.root
+	if r == nil {
+		return VerifRootInfo{Lock: uintptr(unsafe.Pointer(c.rootLock))}
+	}
+	ri := VerifRootInfo{
+		Addr:      uintptr(unsafe.Pointer(r)),
+		Refs:      r.refs,
+		Mark:      uintptr(unsafe.Pointer(&r.reclaimMark)),
+		Chained:   uintptr(unsafe.Pointer(r.chainedRootNodeLoc)),
+		RootEmpty: r.root.isEmpty(),
+		Lock:      uintptr(unsafe.Pointer(c.rootLock)),
+	}
+	for i, n := range r.reclaimLater {
+		ri.ReclaimLater[i] = uintptr(unsafe.Pointer(n))
+	}
+	return ri
+}
+
+// VerifStoreSize returns Store.size (the next write position).
+func VerifStoreSize(s *Store) int64 { return s.getSize() }
